@@ -235,8 +235,8 @@ PROPS = {
         level_note="Fully verifiable (hash + signature) bases: harness-assembled locks of every version v1.0..v1.11, the committed examples v1.1, v1.2, v1.7 and cluster.NewForT v1.10, v1.11; the per-version golden locks give hash verification only. "
                    "Genesis fork versions of the test networks are restated in the harness; herumi BLS is trusted.",
         runs={
-            "quick": [dict(test="TestC12Create", checks=30, shards=4, shrinktime="15s"), dict(test="TestC12Tamper", checks=4000), dict(test="TestC12ReEncode", mode="plain"), dict(test="TestC12Regression", mode="plain"), dict(test="TestC12ConfigRehash", checks=600)],
-            "thorough": [dict(test="TestC12Create", checks=400, shards=14, timeout=3000), dict(test="TestC12Tamper", checks=100000, timeout=3000), dict(test="TestC12ReEncode", mode="plain"), dict(test="TestC12Regression", mode="plain"), dict(test="TestC12ConfigRehash", checks=20000, timeout=3000)],
+            "quick": [dict(test="TestC12Create", checks=30, shards=4, shrinktime="15s"), dict(test="TestC12Tamper", checks=4000), dict(test="TestC12ReEncode", mode="plain"), dict(test="TestC12ReEncodeForms", checks=3000), dict(test="TestC12Regression", mode="plain"), dict(test="TestC12ConfigRehash", checks=600)],
+            "thorough": [dict(test="TestC12Create", checks=400, shards=14, timeout=3000), dict(test="TestC12Tamper", checks=100000, timeout=3000), dict(test="TestC12ReEncode", mode="plain"), dict(test="TestC12ReEncodeForms", checks=100000, timeout=3000), dict(test="TestC12Regression", mode="plain"), dict(test="TestC12ConfigRehash", checks=20000, timeout=3000)],
         },
     ),
     "C11": dict(
